@@ -7,6 +7,7 @@ import (
 	"errors"
 	"fmt"
 	"io"
+	"reflect"
 
 	"github.com/fxamacker/cbor/v2"
 	"go.flow.arcalot.io/pluginsdk/atp"
@@ -16,20 +17,42 @@ import (
 // ---- what the scripted server writes -------------------------------------------------------------
 
 type stepIn struct {
-	Name string `json:"name"`
+	Name  string `json:"name"`
+	Count int64  `json:"count"`
+	Flag  bool   `json:"flag"`
 }
 type stepOut struct {
 	Message string `json:"message"`
 }
+type sigData struct {
+	Note  string `json:"note"`
+	Level int64  `json:"level"`
+}
 
+func strp(s string) *string { return &s }
+
+// defaults on non-string properties: the JSON text of a default is only decoded when the schema is
+// loaded, so a hello can carry one that cannot be decoded
 var stepInScope = schema.NewScopeSchema(
 	schema.NewStructMappedObjectSchema[stepIn]("Input", map[string]*schema.PropertySchema{
-		"name": schema.NewPropertySchema(schema.NewStringSchema(nil, nil, nil), nil, true, nil, nil, nil, nil, nil),
+		"name":  schema.NewPropertySchema(schema.NewStringSchema(nil, nil, nil), nil, true, nil, nil, nil, nil, nil),
+		"count": schema.NewPropertySchema(schema.NewIntSchema(nil, nil, nil), nil, false, nil, nil, nil, strp("12345"), nil),
+		"flag":  schema.NewPropertySchema(schema.NewBoolSchema(), nil, false, nil, nil, nil, strp("true"), nil),
 	}),
 )
 
+func sigScope() *schema.ScopeSchema {
+	return schema.NewScopeSchema(
+		schema.NewStructMappedObjectSchema[sigData]("SigData", map[string]*schema.PropertySchema{
+			"note":  schema.NewPropertySchema(schema.NewStringSchema(nil, nil, nil), nil, true, nil, nil, nil, nil, nil),
+			"level": schema.NewPropertySchema(schema.NewIntSchema(nil, nil, nil), nil, false, nil, nil, nil, strp("7"), nil),
+		}),
+	)
+}
+
+// the recorded plugin: one step with a signal handler and a signal emitter
 var tinySchema = schema.NewCallableSchema(
-	schema.NewCallableStep[stepIn](
+	schema.NewCallableStepWithSignals[any, stepIn](
 		"s",
 		stepInScope,
 		map[string]*schema.StepOutputSchema{
@@ -40,24 +63,167 @@ var tinySchema = schema.NewCallableSchema(
 					}),
 				), nil, false),
 		},
+		map[string]schema.CallableSignal{
+			"sg": schema.NewCallableSignal[any, sigData]("sg", sigScope(), nil, func(context.Context, any, sigData) {}),
+		},
+		map[string]*schema.SignalSchema{
+			"em": schema.NewSignalSchema("em", sigScope(), nil),
+		},
 		nil,
-		func(_ context.Context, in stepIn) (string, any) { return "success", stepOut{in.Name} },
+		nil,
+		func(_ context.Context, _ any, in stepIn) (string, any) { return "success", stepOut{in.Name} },
 	),
 )
 
+// BadKinds are the flavours of "a schema that fails to unserialize" (Session.BadKind).
+var BadKinds = []string{"steps", "default-int", "default-bool", "handler-default", "emitter-default", "emitter-noroot", "emitter-wrongroot", "emitter-dangling", "output-noroot"}
+
+func dig(v any, path ...string) map[string]any {
+	m := v.(map[string]any)
+	for _, k := range path {
+		m = m[k].(map[string]any)
+	}
+	return m
+}
+
+// goodSchema is the description of the recorded plugin as plain maps (through CBOR, as on the wire).
+func goodSchema() map[string]any {
+	s, err := tinySchema.SelfSerialize()
+	if err != nil {
+		panic(err)
+	}
+	dm, err := cbor.DecOptions{DefaultMapType: reflect.TypeOf(map[string]any(nil))}.DecMode()
+	if err != nil {
+		panic(err)
+	}
+	var out map[string]any
+	if err := dm.Unmarshal(mustEnc(s), &out); err != nil {
+		panic(err)
+	}
+	return out
+}
+
+// BadSchemaDesc damages the description in one place.
+func BadSchemaDesc(kind string) any {
+	if kind == "" || kind == "steps" {
+		return map[string]any{"steps": "this is not a steps map"}
+	}
+	d := goodSchema()
+	step := dig(d, "steps", "s")
+	setDefault := func(scope map[string]any, obj, prop, val string) {
+		dig(scope, "objects", obj, "properties", prop)["default"] = val
+	}
+	switch kind {
+	case "default-int":
+		setDefault(dig(step, "input"), "Input", "count", "12x45")
+	case "default-bool":
+		setDefault(dig(step, "input"), "Input", "flag", "trux")
+	case "handler-default":
+		setDefault(dig(step, "signal_handlers", "sg", "data_schema"), "SigData", "level", "7x")
+	case "emitter-default":
+		setDefault(dig(step, "signal_emitters", "em", "data_schema"), "SigData", "level", "7x")
+	case "emitter-noroot":
+		delete(dig(step, "signal_emitters", "em", "data_schema", "objects"), "SigData")
+	case "emitter-wrongroot":
+		dig(step, "signal_emitters", "em", "data_schema")["root"] = "Other"
+	case "emitter-dangling":
+		dig(step, "signal_emitters", "em", "data_schema", "objects", "SigData", "properties", "note")["type"] =
+			map[string]any{"type_id": "ref", "id": "NoSuchObject"}
+	case "output-noroot":
+		delete(dig(step, "outputs", "success", "schema", "objects"), "Output")
+	default:
+		panic("unknown bad schema kind " + kind)
+	}
+	return d
+}
+
 // HelloBytes is the hello message of a session.
 func HelloBytes(ver int64, badSchema bool) []byte {
-	var sch any
 	if badSchema {
-		sch = map[string]any{"steps": "this is not a steps map"}
+		return HelloBytesKind(ver, "steps")
+	}
+	return HelloBytesKind(ver, "-")
+}
+
+// HelloBytesKind is the hello message with the schema damaged as BadKind says ("-": intact).
+func HelloBytesKind(ver int64, kind string) []byte {
+	var sch any
+	if kind == "-" {
+		sch = goodSchema()
 	} else {
-		s, err := tinySchema.SelfSerialize()
-		if err != nil {
-			panic(err)
-		}
-		sch = s
+		sch = BadSchemaDesc(kind)
 	}
 	return mustEnc(atp.HelloMessage{Version: ver, Schema: sch})
+}
+
+// JudgeHello classifies a raw item as a hello message: decodes, version, usable schema.
+func JudgeHello(raw []byte) (decodes bool, ver int64, ok bool) {
+	mi := Classify(Item{Kind: "raw", Raw: raw}, "hello")
+	if mi.K != "hello" {
+		return false, 0, false
+	}
+	return true, mi.Ver, mi.OK
+}
+
+// ScopesOK judges a received schema description independently of UnserializeSchema: every scope
+// description in it (step inputs, output schemas, data schemas of signal handlers AND emitters) is
+// loaded on its own with schema.UnserializeScope; the first rejected one is named.
+func ScopesOK(desc any) (ok bool, where string) {
+	defer func() {
+		if r := recover(); r != nil {
+			ok, where = false, fmt.Sprint("panic: ", r)
+		}
+	}()
+	top, isMap := desc.(map[any]any)
+	if !isMap {
+		return false, "schema is not a map"
+	}
+	steps, isMap := top["steps"].(map[any]any)
+	if !isMap {
+		return false, "steps is not a map"
+	}
+	check := func(where string, d any) (bool, string) {
+		if _, err := schema.UnserializeScope(d); err != nil {
+			return false, where + ": " + err.Error()
+		}
+		return true, ""
+	}
+	for sid, sv := range steps {
+		st, isMap := sv.(map[any]any)
+		if !isMap {
+			return false, fmt.Sprint("step ", sid, " is not a map")
+		}
+		if ok, w := check(fmt.Sprint("input of step ", sid), st["input"]); !ok {
+			return false, w
+		}
+		if outs, isMap := st["outputs"].(map[any]any); isMap {
+			for oid, ov := range outs {
+				om, isMap := ov.(map[any]any)
+				if !isMap {
+					return false, fmt.Sprint("output ", oid, " is not a map")
+				}
+				if ok, w := check(fmt.Sprint("output ", oid, " of step ", sid), om["schema"]); !ok {
+					return false, w
+				}
+			}
+		}
+		for _, key := range []string{"signal_handlers", "signal_emitters"} {
+			sigs, isMap := st[key].(map[any]any)
+			if !isMap {
+				continue
+			}
+			for gid, gv := range sigs {
+				gm, isMap := gv.(map[any]any)
+				if !isMap {
+					return false, fmt.Sprint(key, " ", gid, " is not a map")
+				}
+				if ok, w := check(fmt.Sprint("data schema of ", key, " ", gid, " of step ", sid), gm["data_schema"]); !ok {
+					return false, w
+				}
+			}
+		}
+	}
+	return true, ""
 }
 
 func mustEnc(v any) []byte {
@@ -76,6 +242,9 @@ const ErrText = "zzzz{{{{zzzzyyyyzzzz{{{{zzzzzzzzzzzzzzzz{{{{zzzz"
 func MsgBytes(o SOp, ver int64, badSchema bool) []byte {
 	switch o.Op {
 	case "hello":
+		if o.R != "" {
+			return HelloBytesKind(ver, o.R) // a flavour of bad schema
+		}
 		return HelloBytes(ver, badSchema)
 	case "done":
 		return mustEnc(atp.RuntimeMessage{MessageID: atp.MessageTypeWorkDone, RunID: o.R,
@@ -227,12 +396,20 @@ func Classify(it Item, ctx string) MItem {
 		if err := dm.Unmarshal(it.Raw, &h); err != nil {
 			return MItem{K: "bad"}
 		}
+		if it.HelloJudged {
+			return MItem{K: "hello", Ver: it.HelloVer, OK: it.HelloOK}
+		}
+		// usable = the SDK loads it AND every scope description in it loads on its own (the second
+		// judgement does not go through UnserializeSchema's own walk over the steps)
 		ok := false
 		func() {
 			defer func() { _ = recover() }()
 			_, err := schema.UnserializeSchema(h.Schema)
 			ok = err == nil
 		}()
+		if ok {
+			ok, _ = ScopesOK(h.Schema)
+		}
 		return MItem{K: "hello", Ver: h.Version, OK: ok}
 	case "v1":
 		var d atp.WorkDoneMessage
